@@ -99,7 +99,6 @@ class ProcessCommand:
         # C02: an event handed to routing becomes exactly one TickAddEvent - immediately when there is no (positive)
         # delay, otherwise exactly one scheduled entry due `delay` seconds from now; C03: a zero-delay retry is
         # buffered *before* the deferred idle check, so the run is never announced idle in between
-        immediate = command.delay is None or opt_val(command.delay) <= 0
         return (not isinstance(command, CommandQueueEvent)) or (
             result is None
             and (
@@ -114,7 +113,7 @@ class ProcessCommand:
                     and same(self.tick_buffer[len(old.self.tick_buffer)].recovery_counts, command.recovery_counts)
                     and same(self.scheduled_wakeups, old.self.scheduled_wakeups)
                 )
-                if immediate
+                if (command.delay is None or opt_val(command.delay) <= 0)
                 else (
                     same(self.tick_buffer, old.self.tick_buffer)
                     and len(self.scheduled_wakeups) == len(old.self.scheduled_wakeups) + 1
